@@ -12,7 +12,7 @@ from regions.core import (CompoundPixelRegion, CompoundSkyRegion, PixCoord,
                           PixelRegion, Region, Regions)
 from regions.core.registry import RegionsRegistry
 from regions.io.ds9.core import ds9_frame_map, ds9_shape_templates
-from regions.io.ds9.meta import _translate_metadata_to_ds9
+from regions.io.ds9.meta import _delimit_text, _translate_metadata_to_ds9
 from regions.shapes import RegularPolygonPixelRegion
 
 __all__ = []
@@ -155,7 +155,8 @@ def _make_meta_str(meta):
     metalist = []
     for key, val in meta.items():
         if key == 'tag':  # can have multiple tags; value is always a list
-            metalist.append(' '.join([f'tag={{{val}}}' for val in meta[key]]))
+            metalist.append(' '.join([f'tag={_delimit_text(val)}'
+                                      for val in meta[key]]))
         else:
             metalist.append(f'{key}={val}')
     return ' '.join(metalist)
